@@ -169,6 +169,21 @@ def run_part(prop, seed, budget):
                     _fail(failures, "two-sided-definitions", "property-names-changed-by-the-dialect-conversion", version=str(ver), aliaser=al_name, got=d, expected=want)
                 elif sorted(d.get("required", [])) and not set(d.get("required", [])) <= set(props):
                     _fail(failures, "two-sided-definitions", "required-names-a-key-that-is-not-a-property", version=str(ver), aliaser=al_name, got=d)
+    if prop == "C15":
+        # an assignment a frozen class refuses does not set the field; calling a specialised alias of a generic class sets what the constructor arguments set
+        from apischema.fields import fields_set
+        src = ["from dataclasses import dataclass, field", "from typing import *", "from apischema.fields import with_fields_set", "T = TypeVar('T')", "",
+               "@with_fields_set", "@dataclass(frozen=True)", f"class Fz{i}:", "    a: int = 0", "    b: int = 1", "",
+               "@with_fields_set", "@dataclass", f"class Gs{i}(Generic[T]):", "    a: T", "    b: Optional[T] = None", ""]
+        g = vars(build_module(src, f"corners7fs_{seed}")); Fz, Gs = g[f"Fz{i}"], g[f"Gs{i}"]
+        f = Fz(1)
+        try: f.b = 3
+        except Exception: pass
+        n += 2; distinct.add(case_hash("c7-fs")); hist["fields_set-corners"] += 2
+        got = (sorted(fields_set(f)), serialize(Fz, f))
+        if got != (["a"], {"a": 1}): _fail(failures, "fields-set-corners", "refused-assignment-recorded-as-set", got=got, expected=(["a"], {"a": 1}))
+        a, b = sorted(fields_set(Gs(1))), sorted(fields_set(Gs[int](1)))
+        if a != ["a"] or b != ["a"]: _fail(failures, "fields-set-corners", "set-of-a-specialised-alias-call-differs-from-the-constructor-arguments", plain=a, specialised=b)
     if prop == "C16":
         # a resolver registered as a serialized method with an order: one permutation in serialization, its schema and the GraphQL type
         from apischema.graphql import graphql_schema
